@@ -230,11 +230,41 @@ class PartProgram:
         return None, res
 
 
-def run_rank(MPI, r, R, partition, inputs, wait_script):
+class CPartProgram:
+    """prg_per_partition entry backed by the code pytato generates for the part (loopy C target + gcc)"""
+
+    def __init__(self, bound):
+        self.bound = bound
+
+    def __call__(self, queue, allocator=None, **inputs):
+        return None, {k: np.array(v, copy=True) for k, v in self.bound(**inputs).items()}
+
+
+def make_part_programs(partition, mode="ref"):
+    """mode 'ref': reference evaluator of name_to_output; mode 'c': pytato's own generate_code_for_partition with the
+    harness's C target substituted for the (absent) OpenCL one"""
+    if mode == "ref":
+        return {pid: PartProgram(partition, part) for pid, part in partition.parts.items()}
+    import pytato as pt
+    from pytato.distributed.execute import generate_code_for_partition
+    from vf import cexec
+    orig = pt.generate_loopy
+    pt.generate_loopy = lambda d, **kw: orig(d, target=cexec.VerifCTarget(), **kw)
+    try:
+        bound = generate_code_for_partition(partition)
+    finally:
+        pt.generate_loopy = orig
+    for b in bound.values():
+        b.compiled()
+    return {pid: CPartProgram(b) for pid, b in bound.items()}
+
+
+def run_rank(MPI, r, R, partition, inputs, wait_script, prgs=None):
     """one replay of rank r's executor -> dict(status, pending, sends, posted, outputs|exc)"""
     import pytato as pt
     comm = MPI.Comm(r, R, wait_script=wait_script)
-    prgs = {pid: PartProgram(partition, part) for pid, part in partition.parts.items()}
+    if prgs is None:
+        prgs = make_part_programs(partition)
     try:
         out = pt.execute_distributed_partition(partition, prgs, None, comm, input_args=dict(inputs))
         return {"status": "done", "outputs": out, "sends": comm.sends, "posted": comm.posted, "waited": comm.waited}
@@ -246,7 +276,7 @@ def run_rank(MPI, r, R, partition, inputs, wait_script):
         return {"status": "exc", "exc": e, "sends": comm.sends, "posted": comm.posted}
 
 
-def explore_schedules(R, partitions, inputs_per_rank, max_states=20000, rendezvous=True):
+def explore_schedules(R, partitions, inputs_per_rank, max_states=20000, rendezvous=True, prgs_per_rank=None):
     """explicit-state BFS over Waitsome-answer histories.  Returns dict(states, transitions, terminals=[...],
     deadlocks=[...], errors=[...], capped)"""
     MPI = install_fake_mpi()
@@ -259,7 +289,8 @@ def explore_schedules(R, partitions, inputs_per_rank, max_states=20000, rendezvo
             # data for the answers comes from the senders' sends (computed below, passed in hist entries)
             for ans in hist:
                 script.append({key: thaw(data) for key, data in ans})
-            cache[k] = run_rank(MPI, r, R, partitions[r], inputs_per_rank[r], script)
+            cache[k] = run_rank(MPI, r, R, partitions[r], inputs_per_rank[r], script,
+                                prgs=None if prgs_per_rank is None else prgs_per_rank[r])
         return cache[k]
     init = tuple(() for _ in range(R))
     seen = {keyof(init)}
